@@ -1,0 +1,18 @@
+//go:build verif
+
+package webtransport
+
+import (
+	"io"
+
+	"github.com/karagenc/socket.io-go/engine.io/parser"
+)
+
+// Exported wrappers around the unexported WebTransport framer for the verification harness.
+
+func VerifSend(w io.Writer, packet *parser.Packet) error { return send(w, packet) }
+
+func VerifNextPacket(r io.Reader) (*parser.Packet, error) { return nextPacket(r) }
+
+// VerifNewLimitedReader returns the reader the server transport wraps its stream in.
+func VerifNewLimitedReader(r io.Reader, limit int64) io.Reader { return newLimitedReader(r, limit) }
